@@ -470,6 +470,9 @@ func (s *session) visitNode(sprint *sprint, run flows.Run, node flows.Node, trig
 
 			// check if this action has errored the run
 			if run.Status() == flows.RunStatusFailed {
+				// a flow pushed by an earlier action on this node mustn't be started as the child of a failed run
+				s.pushedFlow = nil
+
 				return step, nil, "", nil
 			}
 		}
